@@ -140,6 +140,9 @@ pub fn run(ctx: &Ctx) -> Verdict {
         .prop_map(|(s, d)| counted(s, d));
     v.subs
         .push(vcore::run_proptest(ctx, "counted", n, counted_strategy, check));
+    if ctx.tier == vcore::Tier::Thorough {
+        v.subs.push(super::fuzz_campaign(ctx, 1_500_000));
+    }
     v
 }
 
